@@ -117,7 +117,7 @@ package query
 //@   ensures evalEpoch == old(evalEpoch) + 1
 //@   ensures result1 == nil ==> result0 != nil
 //@   modifies lastEval, evalEpoch
-//@   modifies * except F:query.View. E:query.Record# E:query.Cell# E:value.Primary# E:*query.SortValue# E:query.SortValues# F:query.SortValue. E:int# F:parser. F:value. F:query.ReferenceScope. F:query.Transaction. F:option.Flags. C: E:bool# E:query.BlockScope# F:query.VariableMap. E:map[string][]int# E:[]string#
+//@   modifies * except F:query.View. E:query.Record# E:query.Cell# E:value.Primary# E:*query.SortValue# E:query.SortValues# F:query.SortValue. E:int# F:parser. F:value. F:query.ReferenceScope. F:query.Transaction. F:option.Flags. C: E:bool# E:query.BlockScope# F:query.VariableMap. E:map[string][]int# E:[]string# MD:int→value.Primary ML:int→value.Primary MV:int→value.Primary
 //@ func EvalRowValue
 //@   trusted assumed frame of expression evaluation
 //@   ensures evalEpoch > old(evalEpoch)
@@ -1634,4 +1634,19 @@ package query
 //@   loop 2 invariant forall(g, 0, rangeindex@1, forall(q, 0, len(groups[g]), isFloatAt(list, groups[g][q])))
 //@   loop 2 invariant forall(q, 0, $i, isFloatAt(list, group[q]))
 //@   loop 2 modifies fresh
+//@   modifies *
+
+// LAG / LEAD (LEAD is LAG over the reversed partition): without IGNORE NULLS row k gets the value evaluated for row
+// k - offset of the partition when that row exists (0 <= k - offset <= k), the default otherwise; with IGNORE NULLS the
+// value comes from a row at or before k - offset. values[k] is the value evaluated for row k.
+//@ func setLag
+//@   property C17 C19 C14
+//@   safety
+//@   requires distinctRows(partition) && len(expr.Args) >= 1 && scope != nil
+//@   loop 1 invariant 0 <= $i && $i <= len(partition) && len(values) == $i && list != nil && fresh(list) && fresh(values)
+//@   loop 1 invariant [row-k-reads-row-k-minus-offset] !expr.IgnoreNulls() && -4611686018427387904 < offset && offset < 4611686018427387904 ==> forall(k, 0, $i, has(list, partition[k]) &&
+//@       list[partition[k]] == ite(0 <= k - offset && k - offset <= k, values[k - offset], defaultValue))
+//@   loop 2 invariant lagIdx == len(values) - 1 - offset && 0 <= lagIdx && lagIdx < len(values) && -1 <= i && i <= lagIdx && len(values) == rangeindex@1 + 1
+//@   loop 2 invariant i < lagIdx ==> expr.IgnoreNulls()
+//@   loop 2 invariant val == defaultValue
 //@   modifies *
